@@ -24,7 +24,7 @@ func init() {
 	core.Register(&core.Check{
 		ID: "C13", Level: "exploration",
 		Technique: "online trace-specification checker over the event log of instrumented resolvers and thunks (start/end per response path, shared side-effect counter); repeated runs across processes for map-iteration diversity",
-		Rule: "case = (schema with a mutation root, mutation document, variables, resolver behaviour table over {plain, nil, error, thunk, thunk under thunk, failing thunk}, repetition); non-trivial: >= 2 top-level mutation fields executed and at least one thunk or nested resolver ran; distinct by hash(schema, document, variables, behaviour table)",
+		Rule:      "case = (schema with a mutation root, mutation document, variables, resolver behaviour table over {plain, nil, error, thunk, thunk under thunk, failing thunk}, repetition); non-trivial: >= 2 top-level mutation fields executed and at least one thunk or nested resolver ran; distinct by hash(schema, document, variables, behaviour table)",
 		Assumptions: []string{
 			"the event log is appended under one mutex by callbacks the harness owns, so its order is the order of the real calls",
 			"top-level response keys in first-occurrence order come from the reference field collection (internal/ref/exec)",
@@ -155,6 +155,26 @@ func run(c *core.Child) {
 			op := d.Ops[0]
 			if op.Op != "mutation" {
 				continue
+			}
+			// multi-operation documents: the selected mutation next to other
+			// operations (before and/or after it), chosen by operationName
+			if x := dr.Intn(10); x < 5 {
+				if op.Name == nil {
+					op.Name = &nast.Name{Value: "M0"}
+				}
+				extra := func(kind, name string) *nast.Operation {
+					return &nast.Operation{Op: kind, Name: &nast.Name{Value: name}, Sel: &nast.SelectionSet{Items: []nast.Node{&nast.Field{Name: &nast.Name{Value: "__typename"}}}}}
+				}
+				switch x {
+				case 0:
+					d.AST.Defs = append([]nast.Node{extra("query", "ExtraBefore")}, d.AST.Defs...)
+				case 1, 2:
+					d.AST.Defs = append(d.AST.Defs, extra("query", "ExtraAfter"))
+				case 3:
+					d.AST.Defs = append(append([]nast.Node{extra("query", "ExtraBefore")}, d.AST.Defs...), extra("query", "ExtraAfter"))
+				default:
+					d.AST.Defs = append(d.AST.Defs, extra("mutation", "OtherMutation"), extra("query", "ExtraAfter"))
+				}
 			}
 			text := nast.Print(d.AST)
 			astDoc, perr := harness.Parse(text)
